@@ -354,6 +354,7 @@ ProDef(n) ==
       [] n = "rejoinA" -> <<J("A", ""), [D EXCEPT !.o = "close", !.h = 1], J("A", "")>>
       [] n = "subA1" -> <<J("A", ""), [D EXCEPT !.o = "sub", !.h = 1, !.cap = 1]>>
       [] n = "subA12" -> <<J("A", ""), [D EXCEPT !.o = "sub", !.h = 1, !.cap = 1], [D EXCEPT !.o = "sub", !.h = 1, !.cap = 2]>>
+      [] n = "subAB" -> <<J("A", ""), J("B", ""), [D EXCEPT !.o = "sub", !.h = 1, !.cap = 2], [D EXCEPT !.o = "sub", !.h = 2, !.cap = 2]>>
       [] n = "hiddenA" -> <<[D EXCEPT !.o = "psub", !.t = "A"]>>
       [] n = "fanA" -> <<J("A", "fan")>>
       [] n = "relayA" -> <<J("A", ""), [D EXCEPT !.o = "relay", !.h = 1]>>
